@@ -637,8 +637,9 @@ impl Rewriter {
       mir::Type::Int32 | mir::Type::Int31 => false,
       mir::Type::Id(type_id) => {
         let Some(type_def) = self.specialized_type_definitions.get(type_id) else {
-          // Recursive type currently being processed - must be heap-allocated (pointer).
-          return self.specialized_type_definition_names.contains(type_id);
+          // Recursive type currently being processed: its own variants are not decided yet,
+          // so it may turn out to contain ints or unboxed values (e.g. `class N(Z, S(N))`).
+          return false;
         };
         match &type_def.mappings {
           // Structs are always pointers.
